@@ -35,7 +35,7 @@ def generate(rng, tier):
     for b in synprops.standard_batches(rng, tier):
         yield b
     n = 4000 if tier == 'quick' else 120000
-    small = [b for _, b in ftlgen.fixtures() if len(b) < 3000]
+    small = [b for _, b in ftlgen.fixtures() if len(b) < 1200]
     cases = []
     for _ in range(n):
         r = rng.random()
